@@ -121,7 +121,22 @@ def one(P, std, payload, mons=None):
     return None, text, len(inserted)
 
 
+def check_raw(payload):
+    r = parse_monitored(payload["text"], payload["std"], ignore_comments=True)
+    vs = []
+    if r.error is not None:
+        vs.append(viol(payload.get("key", "rejected"), str(r.error)[:160]))
+    else:
+        nodes = [n for n in iter_nodes(r.tree) if type(n).__name__.startswith("Cpp_") and getattr(n, "item", None) is not None]
+        got = [norm(str(n)) for n in nodes]
+        if got != payload["directives"]:
+            vs.append(viol(payload.get("key", "directive-text-changed"), "directive nodes %r, expected %r" % (got, payload["directives"])))
+    return {"violations": vs, "digests": [], "monitors": {"directives_checked": 1}, "tally": {}}
+
+
 def check(payload):
+    if payload.get("mode") == "raw":
+        return check_raw(payload)
     P = payload_program(payload)
     std = payload["std"]
     viols, digs = [], []
@@ -142,6 +157,7 @@ def check(payload):
         Q = shrink_program(P, still, budget=60 if key != "include-angle-brackets-printed-as-quotes" else 0)
         w, qtext, _ = one(Q, std, payload)
         v["shrunk"] = {"source": qtext, "detail": w["detail"] if w else None}
+        v["payload"] = dict(payload, program=Q.to_json())
         viols.append(v)
     return {"violations": viols, "digests": digs, "monitors": mons, "tally": {"ic": [payload["ic"]]},
             "sample": {"text": text[:700]}}
